@@ -561,13 +561,13 @@ func (x *Exec) appendOp(st *State, fr *Frame, in ssa.Instruction, cc *ssa.CallCo
 	} else {
 		t := args[1].(Term).S
 		tlen = app("s_len", t)
-		tget = func(i string) string { return app("select", app("select", arr, app("s_arr", t)), app("+", app("s_off", t), i)) }
+		tget = func(i string) string { return app("select", app("select", arr, app("s_arr", t)), app("at", app("s_off", t), i)) }
 	}
 	r := x.allocRefT(st, sT)
 	na := x.declare(st, "apd", "(Array Int "+es+")")
 	q := x.fresh("i")
 	slen := app("s_len", s)
-	x.assume(st, "(forall (("+q+" Int)) (! (=> (and (<= 0 "+q+") (< "+q+" "+slen+")) (= (select "+na+" "+q+") (select (select "+arr+" (s_arr "+s+")) (+ (s_off "+s+") "+q+")))) :pattern ((select "+na+" "+q+"))))")
+	x.assume(st, "(forall (("+q+" Int)) (! (=> (and (<= 0 "+q+") (< "+q+" "+slen+")) (= (select "+na+" "+q+") (select (select "+arr+" (s_arr "+s+")) (at (s_off "+s+") "+q+")))) :pattern ((select "+na+" "+q+"))))")
 	if n, ok := numeral(simplifyLen(tlen, st)); ok && n <= 8 {
 		for i := int64(0); i < n; i++ {
 			x.assume(st, eq(app("select", na, app("+", slen, fmt.Sprint(i))), tget(fmt.Sprint(i))))
